@@ -187,6 +187,10 @@ def run(repo, rep, tier):
     unembedding_by_attribute_only(repo, rep)
     path_attached_after_properties(repo, rep)
     sequence_types_agree(repo, rep)
+    from .c06 import real_shapes_rule
+    real_shapes_rule(repo, rep, rep.rule(
+        'C04.R15', 'real values are written in a form the parser of the '
+        'other side reads back'))
     r1 = rep.rule('C04.R1', 'client IPARAMVALUE names = keys read by the '
                   'server-side adapter')
     r2 = rep.rule('C04.R2', 'None is omitted, everything else is sent')
